@@ -15,8 +15,8 @@ import progs
 import events
 import specdiff
 
-THEOREM_MODULES = ["Yarel.Props.C06", "Yarel.Props.SpecScoping", "Yarel.Props.FnsTie.Resolver"]
-REQUIRED_THEOREMS = ["resolve_local_tie", "resolve_local_innermost", "add_upvalue_spec", "add_upvalue_tie", "resolveLocal_is_innermost_preceding", "pushLocal_fresh", "makeClosure_captures_cells", "write_then_read_shared",
+THEOREM_MODULES = ["Yarel.Props.C06", "Yarel.Props.SpecScoping", "Yarel.Props.FnsTie.Resolver", "Yarel.Props.FnsTie.ScopeEnd"]
+REQUIRED_THEOREMS = ["emit_scope_end_spec", "captured_slots_are_closed", "scope_end_matches_reference", "resolve_local_tie", "resolve_local_innermost", "add_upvalue_spec", "add_upvalue_tie", "resolveLocal_is_innermost_preceding", "pushLocal_fresh", "makeClosure_captures_cells", "write_then_read_shared",
                      "write_does_not_disturb_other", "truncateEnv_keeps_cells", "open_sorted", "capture_shares", "close_exact", "refines_cells", "refines_cells_run"]
 LEVEL = "proof"
 ASSUMPTIONS = [
